@@ -153,6 +153,99 @@ def run_same_text_recompiles(ctx, rounds, nthreads):
     return errors
 
 
+def long_chain(n, groups=1, comment=""):
+    parts = ['if x == 0 { return "a" weighted 1 }']
+    for i in range(1, n + 1):
+        g = ", ".join('"h%d_%d" weighted 1' % (i, k) for k in range(groups))
+        parts.append('else if x == %d { %s return %s }' % (i, comment, g))
+    return "def e { splitters: u " + " ".join(parts) + ' else { return "z" weighted 1 } }'
+
+
+def run_long_sources(ctx, rounds, nthreads, children=None):
+    """the long-source phase in fresh child interpreters (several independent attempts, in parallel)"""
+    import os
+    import subprocess
+    from concurrent.futures import ThreadPoolExecutor
+    children = children or (4 if ctx.tier == "quick" else 16)
+
+    def one(k):
+        env = dict(os.environ, PYAB_REPO=common.REPO)
+        p = subprocess.run(["/venv/bin/python", os.path.join(common.VERIF, "harness", "child_c17.py"), str(rounds), str(nthreads), str(ctx.seed * 100 + k)],
+                           stdout=subprocess.PIPE, stderr=subprocess.PIPE, env=env, timeout=900)
+        if p.returncode != 0:
+            return {"errors": [{"kind": "long-source-child-crashed", "stderr": p.stderr.decode("utf-8", "replace")[-300:]}], "counts": {}}
+        return json.loads(p.stdout.decode("utf-8"))
+    with ThreadPoolExecutor(min(8, children)) as ex:
+        outs = list(ex.map(one, range(children)))
+    errors = []
+    for o in outs:
+        errors += o["errors"]
+        for k, v in o["counts"].items():
+            ctx.count(k, v)
+    ctx.count("long-source-children", children)
+    return errors
+
+
+def run_long_sources_here(ctx, rounds, nthreads, shift=0):
+    """long parses: sources of 15 KB .. 300 KB (else-if chains of 300, 900 and 1400 branches, 500 branches of eight groups with
+    block comments) compiled by worker threads at the same moment; every construction must end as it ends alone — with the
+    evaluator it yields alone, or with the error it raises alone (the 1400 chain exceeds what the code generator's recursion allows
+    on this interpreter, alone or not)"""
+    from pyab_experiment.experiment_evaluator import ExperimentEvaluator
+    texts = [(300, long_chain(300)), (500, long_chain(500, 8, "/* " + "c" * 400 + " */")), (900, long_chain(900)), (1400, long_chain(1400)),
+             (250, long_chain(250, 2, "// c\n"))]
+
+    def build(n, text):
+        try:
+            ev = ExperimentEvaluator(text)       # (stdout is redirected once, around the whole phase: redirect_stdout is not thread-safe)
+            return ["ok"] + [common.outcome_of(lambda x=x: ev(u="u1", x=x)) for x in (0, n // 2, n, n + 1)]
+        except RecursionError:
+            return ["RecursionError"]
+        except Exception as ex:  # noqa
+            return [common.classify_exc(ex)]
+
+    errors = []
+    old_sw = sys.getswitchinterval()
+    redirect = common.contextlib.ExitStack()
+    redirect.enter_context(common.contextlib.redirect_stdout(common.io.StringIO()))
+    redirect.enter_context(common.contextlib.redirect_stderr(common.io.StringIO()))
+    try:
+        ref = {n: build(n, t) for n, t in texts}
+        sys.setswitchinterval(1e-6)
+        for r in range(rounds):
+            barrier = threading.Barrier(nthreads)
+            results = {}
+
+            def worker(tid):
+                n, t = texts[(tid + r + shift) % len(texts)]
+                try:
+                    barrier.wait(timeout=120)
+                except threading.BrokenBarrierError:
+                    return
+                results[tid] = (n, build(n, t))
+
+            ths = [threading.Thread(target=worker, args=(i,)) for i in range(nthreads)]
+            for t in ths:
+                t.start()
+            for t in ths:
+                t.join()
+            ctx.count("long-source-rounds")
+            for tid, (n, got) in results.items():
+                if got != ref[n]:
+                    errors.append({"kind": "long-construction-differs", "branches": n, "threads": nthreads, "concurrent": got[:2], "alone": ref[n][:2]})
+            # and once more alone, afterwards: a race may leave the process in another state than it found it
+            for n, t in texts:
+                again = build(n, t)
+                if again != ref[n]:
+                    errors.append({"kind": "construction-differs-after-concurrent-phase", "branches": n, "now": again[:2], "before": ref[n][:2]})
+            if errors:
+                break
+    finally:
+        sys.setswitchinterval(old_sw)
+        redirect.close()
+    return errors
+
+
 def run(ctx):
     dur = DUR[ctx.tier]
     if ctx.obligation_breaks:
@@ -174,12 +267,16 @@ def run(ctx):
             ctx.violation(f"threads={n}: {e['kind']}: {json.dumps(e)[:200]}", e)
     for e in run_same_text_recompiles(ctx, 4 if ctx.tier == "quick" else 40, 6)[:2]:
         ctx.violation(f"after its own recompile(new) returned, a thread's call is still served by the old experiment: {json.dumps(e)[:200]}", e)
+    for e in run_long_sources(ctx, 3 if ctx.tier == "quick" else 30, 5)[:3]:
+        ctx.violation(f"long sources compiled by several threads at once: {json.dumps(e)[:260]}", e)
     for i in range(max(2, min(total, 5000))):
         ctx.case(("thread-op", i), True)
     ctx.cov["samples"].append({"threads": [2, 4, 8, 16], "operations": total, "switch_interval": 1e-6})
 
 
 def search(ctx):
+    for e in run_long_sources(ctx, 20, 6)[:3]:
+        ctx.violation(f"long sources compiled by several threads at once: {json.dumps(e)[:260]}", e)
     for n in (4, 16):
         errors, _ = run_threads(ctx, 30.0, n)
         for e in errors[:3]:
